@@ -93,4 +93,39 @@ def stepLine (d : DS) : List String → DS × String
     | _, _, _ => (d, "bad-op")
   | _ => (d, "bad-op")
 
-def main : IO Unit := loopState emptyDS stepLine
+/-! name-level layer: `names TRACK NEXT [id,num,[[bid,n,k,stat],..]] [id,num,[[bid,n,k,stat],..]] PURGELATER`
+  (fresh incoming, core outgoing whose names are registered) -> incoming / outgoing block names after
+  `dischargeSwap`, and what `blocksByName` returns for every block name seen before or after (then, if PURGELATER,
+  the same lookups after the incoming assembly was purged). -/
+
+def parseNBlk? (s : String) : Option NBlk := do
+  match ← splitTop s with
+  | [b, n, k, t] => some ⟨← parseNat? b, (← parseInt? n, ← parseNat? k), (← parseNat? t) != 0⟩
+  | _ => none
+
+def parseNAsm? (s : String) : Option NAsm := do
+  match ← splitTop s with
+  | [id, num, bl] => some ⟨← parseNat? id, ← parseInt? num, ← parseList? parseNBlk? bl⟩
+  | _ => none
+
+def showNB (b : NBlk) : String := "[" ++ toString b.bid ++ "," ++ toString b.name.1 ++ "," ++ toString b.name.2 ++ "]"
+
+def namesAnswer (track : Bool) (next : Int) (inc out : NAsm) (later : Bool) : String :=
+  let s0 : NSt := ⟨fun n => if n = out.num then some out.id else none,
+                   fun x => (out.blocks.find? (fun b => b.name = x)).map (·.bid), next⟩
+  let r := nDischarge s0 inc out track
+  let keys := (inc.blocks ++ out.blocks ++ r.2.1.blocks ++ r.2.2.blocks).map (·.name) |>.eraseDups
+  let look (s : NSt) := showList (fun k => "[" ++ toString k.1 ++ "," ++ toString k.2 ++ "," ++
+      (match s.bbn k with | some v => toString v | none => "_") ++ "]") keys
+  "inc=" ++ toString r.2.1.num ++ showList showNB r.2.1.blocks ++ " out=" ++ showList showNB r.2.2.blocks
+    ++ " byName=" ++ showList (fun n => match r.1.byName n with | some v => toString v | none => "_") [r.2.1.num, out.num]
+    ++ " bbn=" ++ look r.1 ++ (if later then " afterPurge=" ++ look (nPurge r.1 r.2.1) else "")
+
+def stepLine' (d : DS) : List String → DS × String
+  | ["names", t, n, i, o, l] =>
+    match parseBool? t, parseInt? n, parseNAsm? i, parseNAsm? o, parseBool? l with
+    | some t, some n, some i, some o, some l => (d, namesAnswer t n i o l)
+    | _, _, _, _, _ => (d, "bad-op")
+  | ws => stepLine d ws
+
+def main : IO Unit := loopState emptyDS stepLine'
